@@ -1004,6 +1004,44 @@ Example C13_stamp_frac_inhabited :
 Proof. exact Proofs.C13StampFrac.stamp_frac_inhabited. Qed.
 Print Assumptions C13_stamp_frac_inhabited.
 
+(** ** %v (= "%e-%b-%Y"), %h (= %b), %n and %t (white space): StrftimeItems expands them to items of the class
+    above (Proofs/C13MoreForms.v).  [fmt_date_class fmt] / [fmt_ndt_class k fmt] decide membership on the
+    format STRING; for a member, X::parse_from_str(&v.format(fmt).to_string(), fmt) = Ok(v with the printed
+    fields) for EVERY value.  Items no end-to-end theorem covers yet: the %C + %y pair, %Z / %::z / %:::z /
+    %#z (one-directional: the item theorems above state what holds), %+ and the RFC 2822 / RFC 3339 Fixed
+    items inside parse_internal, non-ASCII literals. *)
+From V Require Proofs.C13MoreForms.
+Theorem C13_fmt_date_class_roundtrip : forall fmt, Proofs.C13MoreForms.fmt_date_class fmt = true ->
+  forall y o d, Proofs.C08Sweeps.repr y o d ->
+  exists text,
+    Model.Format.delayed_display (Model.Format.fa_of_date d) (Model.Strftime.sf_new fmt) = Model.Format.fok text /\
+    date_parse_from_str text fmt = pok d.
+Proof. exact Proofs.C13MoreForms.fmt_date_class_roundtrip. Qed.
+Print Assumptions C13_fmt_date_class_roundtrip.
+
+Theorem C13_fmt_ndt_class_roundtrip : forall fmt k, fmt_ndt_class k fmt = true -> k = 3 \/ k = 6 \/ k = 9 ->
+  exists items, items_of fmt = Val (Some items) /\
+  forall y o d t, Proofs.C08Sweeps.repr y o d -> valid_time t ->
+  exists text,
+    Model.Format.delayed_display (Model.Format.fa_of_ndt (Model.DateTime.mk_ndt d t)) (Model.Strftime.sf_new fmt) = Model.Format.fok text /\
+    ndt_parse_from_str text fmt = pok (Model.DateTime.mk_ndt d (static_time_value items k t)).
+Proof. exact Proofs.C13MoreForms.fmt_ndt_class_roundtrip. Qed.
+Print Assumptions C13_fmt_ndt_class_roundtrip.
+
+(* "%v", "%d %h %Y", "%e%t%h%n%Y"; "%F%n%T", "%F%t%T", "%v%n%T", "%d %h %Y%t%H:%M:%S"; %h is the item of %b *)
+Example C13_more_format_strings :
+  Proofs.C13MoreForms.fmt_date_class [37;118] = true /\
+  Proofs.C13MoreForms.fmt_date_class [37;100;32;37;104;32;37;89] = true /\
+  Proofs.C13MoreForms.fmt_date_class [37;101;37;116;37;104;37;110;37;89] = true /\
+  fmt_ndt_class 9 [37;70;37;110;37;84] = true /\
+  fmt_ndt_class 9 [37;70;37;116;37;84] = true /\
+  fmt_ndt_class 9 [37;118;37;110;37;84] = true /\
+  fmt_ndt_class 9 [37;100;32;37;104;32;37;89;37;116;37;72;58;37;77;58;37;83] = true /\
+  items_of [37;104] = items_of [37;98] /\
+  items_of [37;110;37;116] = Val (Some [Space [10]; Space [9]]).
+Proof. exact Proofs.C13MoreForms.more_format_strings. Qed.
+Print Assumptions C13_more_format_strings.
+
 (** ** never-Panic (slice safety) for EVERY item list, the Fixed::RFC2822 item included
     (Proofs/C13Total.v; the older forms above, which exclude that item, are kept under their names).
     [Proofs.C13Total.item_wf]: the only condition on an item is that a literal is a string (what
